@@ -25,6 +25,10 @@ type lcSide struct {
 	// C03, keystream: every data message of the current session of this side by (sender key id,
 	// recipient key id, counter); the AES-CTR key depends on the key ids only, the counter is the nonce
 	ctrs map[[3]uint64]lcData
+	// C03/C18, kept by the harness from the public API alone: the peer ended the conversation (a Receive
+	// took IsEncrypted from true to false) and since then neither End was called nor a key exchange
+	// completed — the conversation is finished whatever the library's own state variable says
+	peerEnded bool
 }
 
 type lcData struct {
@@ -45,6 +49,7 @@ type lcLink struct {
 	order     [][]byte       // delivery order at each side is checked through `queued`
 	g         *gen
 	op        string // what the next call is, for the descriptions ("" = Receive)
+	hist      string // directed scenarios: the history so far, for the descriptions
 }
 
 // C03 "decipherable only with the session's DH secrets": AES-CTR under a key that is a function of
@@ -121,6 +126,11 @@ func (ll *lcLink) call(p *party, f func() ([]otr3.ValidMessage, []byte)) []otr3.
 		olog.viol("C18", "security-event-without-transition", desc)
 	}
 	s := ll.side(p)
+	if after {
+		s.peerEnded = false
+	} else if before && op == "" && !ll.w.dead {
+		s.peerEnded = true
+	}
 	for _, t := range ts {
 		s.wire = append(s.wire, append([]byte{}, t...))
 	}
@@ -149,13 +159,16 @@ func (ll *lcLink) sendText(p *party, text []byte) {
 	s := ll.side(p)
 	st := otr3.VerifSnapshot(p.c).MsgState
 	enabled := s.pol&6 != 0
-	why := ""
+	why, note := "", ""
 	switch {
 	case !enabled:
 	case st == 1:
 		why = "encrypted"
-	case st == 2:
+	case st == 2 || s.peerEnded:
 		why = "finished"
+		if st != 2 {
+			note = fmt.Sprintf(" (the peer ended the conversation; since then no End and no completed key exchange on %s, policies %d; its msgState reads %d)", p.id, s.pol, st)
+		}
 	case st == 0 && s.pol&8 != 0:
 		why = "require-encryption"
 	}
@@ -168,17 +181,26 @@ func (ll *lcLink) sendText(p *party, text []byte) {
 		return ts, nil
 	})
 	if why != "" {
-		s.secrets = append(s.secrets, lcSecret{text, from, why})
+		s.secrets = append(s.secrets, lcSecret{text, from, why + note})
 	}
 	if why == "finished" {
 		olog.ok("C18")
 		if err == nil {
-			olog.viol("C18", "send-accepted-while-finished", fmt.Sprintf("%s: Send succeeded in the finished state", p.id))
+			olog.viol("C18", "send-accepted-while-finished", fmt.Sprintf("%s: Send(%.40q) succeeded in the finished state%s", p.id, text, note))
 		}
 		for _, t := range ts {
 			if !isErrorReply(t) {
-				olog.viol("C18", "send-emits-while-finished", fmt.Sprintf("%s: Send in the finished state emitted %.60q", p.id, t))
+				olog.viol("C18", "send-emits-while-finished", fmt.Sprintf("%s: Send(%.40q) in the finished state%s emitted %.60q", p.id, text, note, t))
 			}
+		}
+		// C03: "Send emits no form of the text at all"
+		olog.ok("C03")
+		var out [][]byte
+		for _, t := range ts {
+			out = append(out, t)
+		}
+		if where := leaks(text, out); where != "" && len(text) > 0 {
+			olog.viol("C03", "send-emits-while-finished", fmt.Sprintf("%s%s: Send(%q) while finished%s returned err=%v and the text %s", ll.hist, p.id, text, note, err, where))
 		}
 	}
 	if why == "require-encryption" && err == nil {
@@ -189,6 +211,7 @@ func (ll *lcLink) sendText(p *party, text []byte) {
 func (ll *lcLink) endSession(p *party) {
 	ll.op = "of End"
 	ll.call(p, func() ([]otr3.ValidMessage, []byte) { ts, _ := ll.w.end(p); return ts, nil })
+	ll.side(p).peerEnded = false
 }
 
 func (ll *lcLink) deliverOne(toB bool) bool {
@@ -288,7 +311,7 @@ func (g *gen) lifecycleScenario(w *world, steps int) {
 			ll.side(p).wire = append(ll.side(p).wire, q)
 			ll.enqueue(p, []otr3.ValidMessage{q})
 		case k < 27:
-			w.tick([]int{31, 61, 120, 3600}[g.r.Intn(4)])
+			w.tick([]int{45, 75, 120, 3600}[g.r.Intn(4)])
 		default:
 			// the peer reports that it could not read our last message
 			ll.call(p, func() ([]otr3.ValidMessage, []byte) {
@@ -375,6 +398,129 @@ func (g *gen) queuedThenSend(w *world) {
 	}
 }
 
+// C03 / C18: the peer ends the conversation (we are finished), carries on in plaintext and — its policy
+// SEND_WHITESPACE_TAG — tags that text; our policy WHITESPACE_START_AKE answers the tag with a D-H Commit.
+// Until that key exchange has completed, or the user has called End, the conversation is still the one the
+// peer ended: Send refuses and emits nothing of the text. Send is tried right after the D-H Commit went
+// out and again after each further message of the handshake.
+func (g *gen) peerEndsThenTag(w *world, k int) {
+	w.parties = map[string]*party{}
+	w.dead = false
+	base := []int{2, 4, 6}[k%3]
+	pa, pb := base|16, base|32 // a: the peer that ends and tags; b: we
+	if g.r.Intn(3) == 0 {
+		pa |= 32
+	}
+	if g.r.Intn(3) == 0 {
+		pa |= 64
+	}
+	if g.r.Intn(3) == 0 {
+		pb |= 16
+	}
+	if g.r.Intn(3) == 0 {
+		pb |= 64
+	}
+	a := w.newParty(partyCfg{policies: pa, keyIdx: 0, fragSize: g.fragSize(), errh: g.r.Intn(2) == 0})
+	b := w.newParty(partyCfg{policies: pb, keyIdx: 1, fragSize: g.fragSize(), errh: g.r.Intn(2) == 0})
+	ll := &lcLink{link: &link{w: w, a: a, b: b}, sa: &lcSide{p: a, pol: pa}, sb: &lcSide{p: b, pol: pb}, delivered: map[string]int{}, g: g}
+	// first conversation: from a query of either side, or from a's tagged plaintext
+	start := g.r.Intn(3)
+	switch start {
+	case 0, 1:
+		p := []*party{a, b}[start]
+		q := w.query(p)
+		ll.side(p).wire = append(ll.side(p).wire, q)
+		ll.enqueue(p, []otr3.ValidMessage{q})
+	default:
+		ll.sendText(a, g.cleanText())
+	}
+	ll.settle()
+	if !a.c.IsEncrypted() || !b.c.IsEncrypted() || w.dead {
+		g.dist["lifecycle-peer-ends-then-tag:no-first-session"]++
+		return
+	}
+	for i := g.r.Intn(3); i > 0; i-- {
+		ll.sendText([]*party{a, b}[g.r.Intn(2)], g.lcText())
+		ll.settle()
+	}
+	ll.endSession(a)
+	ll.settle()
+	if g.r.Intn(2) == 0 {
+		ll.sendText(b, g.lcText()) // plainly finished: refused
+	}
+	tagged := g.cleanText()
+	ll.sendText(a, tagged)
+	hist := fmt.Sprintf("peer-ends-then-tag (allowed versions mask %d, our policies %d, peer policies %d; first session started by %s): encrypted, the peer ended, its tagged plaintext %.24q arrived", base, pb, pa, []string{"the peer's query", "our query", "the peer's whitespace tag"}[start], tagged)
+	ll.hist = hist + ": "
+	// the tagged plaintext reaches us: the D-H Commit goes out
+	sent := len(ll.sb.wire)
+	ll.deliverOne(true)
+	if len(ll.sb.wire) == sent || b.c.IsEncrypted() || w.dead {
+		g.dist["lifecycle-peer-ends-then-tag:no-commit"]++
+		return
+	}
+	g.dist["lifecycle-peer-ends-then-tag:send-after-commit"]++
+	ll.hist = hist + ", our D-H Commit went out: "
+	ll.sendText(b, g.lcText())
+	ended := false
+	if g.r.Intn(5) == 0 {
+		// the user gives the old conversation up: plaintext from here on, by the user's own decision
+		ll.endSession(b)
+		ll.hist = hist + ", our D-H Commit went out, End was called: "
+		ll.sendText(b, g.lcText())
+		ended = true
+		g.dist["lifecycle-peer-ends-then-tag:user-ends-midway"]++
+	}
+	// the rest of the handshake, one wire message at a time; a Send after each of our handshake messages
+	for i, msgs := 0, 0; i < 400 && !b.c.IsEncrypted() && (len(ll.qab) > 0 || len(ll.qba) > 0) && !w.dead; i++ {
+		if len(ll.qba) > 0 {
+			ll.deliverOne(false)
+			if !ended && g.r.Intn(4) == 0 {
+				ll.hist = hist + fmt.Sprintf(", our D-H Commit went out, %d more message(s) of ours followed, the exchange has not completed: ", msgs)
+				ll.sendText(b, g.lcText())
+			}
+			continue
+		}
+		sent = len(ll.sb.wire)
+		ll.deliverOne(true)
+		if b.c.IsEncrypted() {
+			break
+		}
+		if len(ll.sb.wire) > sent {
+			msgs++
+		}
+		if !ended && (len(ll.sb.wire) > sent || g.r.Intn(3) == 0) {
+			ll.hist = hist + fmt.Sprintf(", our D-H Commit went out, %d more message(s) of ours followed, the exchange has not completed: ", msgs)
+			ll.sendText(b, g.lcText())
+			g.dist["lifecycle-peer-ends-then-tag:send-during-handshake"]++
+		}
+	}
+	ll.hist = ""
+	if b.c.IsEncrypted() {
+		g.dist["lifecycle-peer-ends-then-tag:second-session"]++
+	}
+	// the new conversation (if any): ordinary traffic
+	for i := 1 + g.r.Intn(2); i > 0 && !w.dead; i-- {
+		ll.sendText([]*party{b, a}[g.r.Intn(2)], g.lcText())
+		ll.settle()
+	}
+	ll.settle()
+	for _, s := range []*lcSide{ll.sa, ll.sb} {
+		for _, sec := range s.secrets {
+			olog.ok("C18")
+			olog.ok("C03")
+			n := ll.delivered[string(sec.text)]
+			r, _ := resentCopies(ll.delivered, sec.text)
+			if n > 1 || r > 1 {
+				olog.viol("C18", "text-transmitted-more-than-once", fmt.Sprintf("%s: text %q (sent while %s) was delivered %d times and %d times as resent", hist, sec.text, sec.why, n, r))
+			}
+			if where := leaks(sec.text, s.wire[sec.from:]); where != "" {
+				olog.viol("C03", "text-readable-on-the-wire", fmt.Sprintf("%s; then %s's text %q passed to Send while %s appears %s", hist, s.p.id, sec.text, sec.why, where))
+			}
+		}
+	}
+}
+
 // short directed histories around the retransmission state machine: every sequence over a small
 // alphabet of lifecycle operations (sampled in the quick tier, enumerated in the thorough tier)
 func (g *gen) lifecycleMotif(w *world, seq []int, reqEnc bool, version int) {
@@ -383,8 +529,6 @@ func (g *gen) lifecycleMotif(w *world, seq []int, reqEnc bool, version int) {
 
 // runs the history, the final probe send and the oracles; returns the abstract state reached BEFORE the probe
 func (g *gen) lifecycleMotifKey(w *world, seq []int, reqEnc bool, version int) string {
-	w.parties = map[string]*party{}
-	w.dead = false
 	base := 2
 	if version == 3 {
 		base = 4
@@ -393,9 +537,17 @@ func (g *gen) lifecycleMotifKey(w *world, seq []int, reqEnc bool, version int) s
 	if reqEnc {
 		pa |= 8
 	}
+	return g.lifecycleMotifPol(w, seq, reqEnc, pa, base)
+}
+
+// the same under given policy sets: pa for the side that acts (a), pb for its peer
+func (g *gen) lifecycleMotifPol(w *world, seq []int, reqEnc bool, pa, pb int) string {
+	w.parties = map[string]*party{}
+	w.dead = false
 	a := w.newParty(partyCfg{policies: pa, keyIdx: 0, errh: true})
-	b := w.newParty(partyCfg{policies: base, keyIdx: 1, errh: true})
-	ll := &lcLink{link: &link{w: w, a: a, b: b}, sa: &lcSide{p: a, pol: pa}, sb: &lcSide{p: b, pol: base}, delivered: map[string]int{}, g: g}
+	b := w.newParty(partyCfg{policies: pb, keyIdx: 1, errh: true})
+	ll := &lcLink{link: &link{w: w, a: a, b: b}, sa: &lcSide{p: a, pol: pa}, sb: &lcSide{p: b, pol: pb}, delivered: map[string]int{}, g: g}
+	ll.hist = fmt.Sprintf("history %v (policies %d, peer %d): ", seq, pa, pb)
 	q := w.query(a)
 	ll.sa.wire = append(ll.sa.wire, q)
 	ll.enqueue(a, []otr3.ValidMessage{q})
@@ -422,6 +574,12 @@ func (g *gen) lifecycleMotifKey(w *world, seq []int, reqEnc bool, version int) s
 			ll.sendText(b, g.lcText())
 		case 6:
 			w.tick(120)
+		case 7:
+			// the peer's text and ours cross: its message reaches us, whatever we answer to it is still
+			// on its way when our user sends
+			ll.sendText(b, g.lcText())
+			ll.deliverOne(false)
+			ll.sendText(a, g.lcText())
 		}
 	}
 	ll.settle()
@@ -444,7 +602,7 @@ func (g *gen) lifecycleMotifKey(w *world, seq []int, reqEnc bool, version int) s
 				olog.viol("C18", "text-transmitted-more-than-once", fmt.Sprintf("history %v (requireEncryption=%v): text %q (sent while %s) was delivered %d times and %d times as resent", seq, reqEnc, sec.text, sec.why, n, r))
 			}
 			if where := leaks(sec.text, s.wire[sec.from:]); where != "" {
-				olog.viol("C03", "text-readable-on-the-wire", fmt.Sprintf("history %v: text %q passed to Send while %s appears %s", seq, sec.text, sec.why, where))
+				olog.viol("C03", "text-readable-on-the-wire", fmt.Sprintf("history %v (policies %d, peer %d): text %q passed to Send while %s appears %s", seq, pa, pb, sec.text, sec.why, where))
 			}
 		}
 	}
@@ -467,12 +625,17 @@ func lcAbstract(a, b *party) string {
 // breadth-first exploration of operation sequences (network settles after every operation), extending
 // only sequences that reached a not yet seen abstract state: systematic cover of the lifecycle /
 // retransmission state machine instead of sampling it
-func (g *gen) lifecycleBFS(w *world, budget int, reqEnc bool, version int) int {
+func (g *gen) lifecycleBFS(w *world, budget int, reqEnc bool, version int, ws bool) int {
 	type node struct{ seq []int }
 	seen := map[string]bool{}
 	frontier := []node{{nil}}
 	runs := 0
 	ops := []int{0, 1, 2, 3, 5, 6}
+	if ws {
+		// whitespace tags: the peer tags its plaintext, we answer a tag with a key exchange; and the
+		// peer's text may cross with ours (7), so that a Send falls into a key exchange under way
+		ops = []int{3, 7, 0, 1, 2, 5, 6}
+	}
 	for len(frontier) > 0 && runs < budget {
 		var next []node
 		for _, nd := range frontier {
@@ -485,7 +648,17 @@ func (g *gen) lifecycleBFS(w *world, budget int, reqEnc bool, version int) int {
 				for _, o := range seq {
 					full = append(full, o, 4)
 				}
-				key := g.lifecycleMotifKey(w, full, reqEnc, version)
+				var key string
+				if ws {
+					base := map[int]int{2: 2, 3: 4}[version]
+					pa := base | 64 | 32
+					if reqEnc {
+						pa |= 8
+					}
+					key = g.lifecycleMotifPol(w, full, reqEnc, pa, base|16)
+				} else {
+					key = g.lifecycleMotifKey(w, full, reqEnc, version)
+				}
 				runs++
 				if key != "" && !seen[key] {
 					seen[key] = true
@@ -495,7 +668,7 @@ func (g *gen) lifecycleBFS(w *world, budget int, reqEnc bool, version int) int {
 		}
 		frontier = next
 	}
-	g.dist[fmt.Sprintf("lifecycle-bfs:abstract-states(req=%v,v%d)", reqEnc, version)] = len(seen)
+	g.dist[fmt.Sprintf("lifecycle-bfs:abstract-states(req=%v,v%d%s)", reqEnc, version, map[bool]string{true: ",whitespace"}[ws])] = len(seen)
 	return runs
 }
 
@@ -524,7 +697,7 @@ func (g *gen) peerRestart(w *world) {
 	bTag := otr3.VerifSnapshot(b.c).OurTag
 	b2 := w.newParty(partyCfg{policies: pol, keyIdx: 1, errh: true, tag: bTag})
 	l2 := &link{w: w, a: a, b: b2}
-	w.tick(61)
+	w.tick(75)
 	text := g.cleanText()
 	ts, _ = w.send(a, text)
 	l2.enqueue(a, ts)
@@ -558,7 +731,7 @@ func (g *gen) peerRestart(w *world) {
 	cycles := 1 + g.r.Intn(2)
 	for cy := 1; cy <= cycles && !w.dead; cy++ {
 		// (a query right after a key exchange is ignored for a minute)
-		wait := []int{61, 75, 120, 3600}[g.r.Intn(4)]
+		wait := []int{75, 90, 120, 3600}[g.r.Intn(4)]
 		w.tick(wait)
 		peerSpoke := g.r.Intn(3) == 0
 		if peerSpoke {
@@ -598,9 +771,10 @@ func init() {
 		for i := 0; i < 2+n/100; i++ {
 			g.queuedThenSend(w)
 		}
-		runs := g.lifecycleBFS(w, n/2, true, 3)
-		runs += g.lifecycleBFS(w, n/4, false, 3)
-		runs += g.lifecycleBFS(w, n/4, true, 2)
+		runs := g.lifecycleBFS(w, n/2, true, 3, false)
+		runs += g.lifecycleBFS(w, n/4, false, 3, false)
+		runs += g.lifecycleBFS(w, n/4, true, 2, false)
+		runs += g.lifecycleBFS(w, 10+n/30, false, 2+int(seed&1), true)
 		extra["histories"] = runs
 		extra["panics"] = panicCount
 		olog.export(extra)
@@ -655,6 +829,11 @@ func init() {
 				}
 				g.lifecycleMotif(w, seq, g.r.Intn(2) == 0, 2+g.r.Intn(2))
 			}
+		}
+		// directed: Send while our answer to the whitespace tag of a peer that ended the conversation is
+		// under way (after the random part, whose draws stay what they were)
+		for k := 0; k < 3+n/5; k++ {
+			g.peerEndsThenTag(w, k)
 		}
 		extra["panics"] = panicCount
 		olog.export(extra)
